@@ -187,6 +187,20 @@ def hilbert_cells(tier, parts, kmax_quick=10, kmax_thorough=13):
     return cells
 
 
+def array_at_cells(tier):
+    cells = []
+    for fl in ("debug", "ndebug"):
+        cells.append(Cell("array.at.%s" % fl, "array_at", "h_array_at", defines={"DIMS_OUT": 3, "OUT_SCALAR_T": "float"},
+                          enforce="array_at", flavour=fl, closes_loops="loop-free", replay=None))
+    for m, t in ((1, "float"), (3, "float"), (3, "double")):
+        cells.append(Cell("array.addr.M%d.%s" % (m, t), "array_at", "h_array_addr", defines={"DIMS_OUT": m, "OUT_SCALAR_T": t},
+                          replace=["array_at"], closes_loops="loop-free", note="element count symbolic up to 2^40", replay=None))
+        cells.append(Cell("array.rw.M%d.%s" % (m, t), "array_at", "h_array_rw", defines={"DIMS_OUT": m, "OUT_SCALAR_T": t, "ARRAY_RW_MAX_ELEMS": 8},
+                          replace=["array_at"], closes_loops="loop-free", kind="bounded", bound="at most 8 elements (store/load through memory)",
+                          backends=(("sat", 300),), replay=None))
+    return cells
+
+
 # ------------------------------------------------------------------ C18
 def cells_C18(tier, consts):
     cells = []
@@ -228,6 +242,9 @@ def cells_C18(tier, consts):
 
 
 PROPS["C18"] = {
+    "level_text": "round_pow2 proved for all inputs at every width by a loop contract; ipow proved for all (b,e) at W=8 and for the exponents the library passes (0..4) and powers of two at W=16/32/64; Morton sizing lemma and both allocation-size expressions proved over the contracts for N=1..4 (unbounded in extents and coordinates)",
+    "level_note": "ipow for general (b,e) at W>=16 is undecided by every installed back end and is not claimed; Hilbert storage size is covered by C01's per-k cells; std::max_element modelled by a stub",
+    "design_ref": "DESIGN.md section 5 (C18)",
     "cells": cells_C18,
     "consts": True,
     "explanation": "round_pow2 and ipow extracted from numeric.hpp and verified against contracts stating C18",
@@ -249,6 +266,9 @@ def cells_C14(tier, consts):
 
 
 PROPS["C14"] = {
+    "level_text": "Morton (all three implementations) proved equal to the bit-interleave for all in-domain 64-bit coordinates, N=1..4; row-major position proved equal to sum c_k prod N_l at full width (ring identity, cvc5); Hilbert curve facts (range, origin, injective, edge-adjacent) are BOUNDED: one complete cell per curve order k <= 10 (quick) / 13 (thorough), reported under bounded and not counted as proved",
+    "level_note": "pdep hardware instruction modelled from the Intel SDM pseudocode; Morton masks evaluated by g++ from the real metaprogram; Hilbert is bounded by k",
+    "design_ref": "DESIGN.md section 5 (C14)",
     "cells": cells_C14,
     "consts": True,
     "explanation": "index maps of the storage-order layers extracted and verified against the published curves",
@@ -263,10 +283,14 @@ def cells_C01(tier, consts):
     cells = morton_cells(tier, ["at", "injective", "sizing", "alloc"])
     cells += strided_cells(tier, ["formula", "bound8", "bounded64", "alloc"])
     cells += hilbert_cells(tier, ["rot", "box", "alloc"], kmax_quick=8, kmax_thorough=11)
+    cells += array_at_cells(tier)
     return cells
 
 
 PROPS["C01"] = {
+    "level_text": "Morton: lookup contract (one backend query at the interleaved position, inside the storage), injectivity and sizing proved unbounded for N=1..4; array backend lookup proved to return element i of its own buffer with disjoint elements; row-major: formula proved at full width, bound/injectivity decided at the 8-bit instantiation (complete there) plus bounded 64-bit cells; Hilbert: per-k cells (bounded)",
+    "level_note": "row-major bound/injectivity at 64 bits rests on the width-independent mixed-radix lemma (machine arithmetic treated as mathematical beyond the 8-bit cell); field_view forwarding and owning->non-owning constructors not extracted",
+    "design_ref": "DESIGN.md section 5 (C01)",
     "cells": cells_C01,
     "consts": True,
     "explanation": "storage-order layers: index in bounds, index map injective, array backend returns element i of its own buffer",
